@@ -22,7 +22,7 @@ RULE = ("Real AudioReader read to exhaustion plus 1-5 further reads, over source
         "Non-trivial = >=1 block returned; distinct = distinct (audio, block, hop, max_read, kind).")
 ASSUMPTIONS = [
     "hop sizes of zero samples are outside the statement and not generated",
-    "max_read*rate at an exact .5 accepts either neighbour (the statement fixes no tie rule)",
+    "round(max_read*rate) is Python's round() of the product (ties to even), as the statement spells it",
     "held means: held on the executions listed in coverage",
 ]
 
@@ -63,6 +63,8 @@ def run_reader_case(ctx, case, tmpdir):
     ctx.count("reads", len(got))
     if case["hop"] not in (None, case["block"]):
         ctx.count("readers_with_overlap")
+    if case["hop"] is not None and reader.hop_size == reader.block_size and RC.durations_of(case)[1] < RC.durations_of(case)[0]:
+        ctx.count("readers_hop_dur_below_block_dur_same_sample_count")
     if case["max_read_samples"] is not None:
         ctx.count("readers_with_max_read")
     if case["nsamples"] == 0:
@@ -106,7 +108,7 @@ def constructor_cases(ctx):
     data = bytes(40)
     for rate in (8, 10, 100, 16000):
         for block_dur in (1 / rate, 2 / rate, 0.5 / rate, 0.99 / rate, 1.5 / rate, 0.1):
-            for hop_dur in (None, block_dur, block_dur / 2, block_dur * 2, block_dur + 1 / rate):
+            for hop_dur in (None, block_dur, block_dur / 2, block_dur * 2, block_dur + 1 / rate, block_dur + 0.5 / rate, block_dur * 1.01):
                 ctx.evaluations += 1
                 ctx.count("constructor_cases")
                 exp_err = None
@@ -179,7 +181,7 @@ def replay(ctx, case):
 def inconclusive(merged, tier):
     c = merged["counters"]
     need = ["readers", "readers_with_overlap", "readers_with_max_read", "readers_on_empty_source", "nones_after_end_observed",
-            "constructor_errors_observed", "exhaustive_core_cases"] + ["kind_" + k for k in RC.SOURCE_KINDS]
+            "constructor_errors_observed", "exhaustive_core_cases", "readers_hop_dur_below_block_dur_same_sample_count"] + ["kind_" + k for k in RC.SOURCE_KINDS]
     return [f"monitor never observed {k}" for k in need if c.get(k, 0) == 0]
 
 
